@@ -66,9 +66,37 @@ def rand_outcome(rng):
     return rng.choice("EZ")
 
 
+def accept_prefix(rng, nc):
+    """Clients 1..nc obtained through a listener (harness sockets connect, the loop accepts) instead of Server::pair;
+    the onAccepted callback may already write (leaving a backlog) to or suspend the new client."""
+    ops = ["listen 1"]
+    for c in range(1, nc + 1):
+        ops.append("pconnect %d 1" % c)
+        k = rng.random()
+        if k < 0.7:
+            ops.append("oncb " + rng.choice(["writeself %d %s" % (rng.choice([3, 5, 8, 13]), rng.choice(["W", "W", "P1", "P2", "F"])),
+                                             "suspendself", "suspendself;writeself 6 W", "writeself 7 P3;suspendself", "nop"]))
+        ops.append("run L1")
+    return ops
+
+
+def directed_execs():
+    """Short histories around one callback: a write from inside onWrite / onRead / onAccepted that leaves a backlog, a
+    suspend or resume from inside a callback - followed by the completeness tail."""
+    ex = []
+    for o1 in ("P3", "W"):
+        for o2 in ("W", "P2", "F"):
+            ex.append(["pair 1", "write 1 9 " + o1, "oncb writeself 5 " + o2, "run O1F"] + TAIL)              # next chunk from onWrite
+            ex.append(["pair 1", "psend 1 2", "oncb writeself 8 " + o2, "run I1", "run O1" + o1] + TAIL)        # reply from onRead
+            ex.append(["pair 1", "write 1 9 " + o1, "oncb suspendself;writeself 4 " + o2, "run O1F", "oncb resumeself", "run T"] + TAIL)
+            ex.append(["listen 1", "pconnect 1 1", "oncb writeself 9 " + o1, "run L1", "oncb writeself 4 " + o2, "run O1F"] + TAIL)
+            ex.append(["listen 1", "pconnect 1 1", "oncb suspendself;writeself 9 " + o1, "run L1", "psend 1 3", "run A", "run O1" + o2] + TAIL)
+    return ex
+
+
 def rand_exec(rng, nops):
     nc = rng.choice([1, 2, 2, 3])
-    ops = ["pair %d" % c for c in range(1, nc + 1)]
+    ops = ["pair %d" % c for c in range(1, nc + 1)] if rng.random() < 0.75 else accept_prefix(rng, nc)
     for _ in range(nops):
         c = rng.randint(1, nc)
         r = rng.random()
@@ -84,7 +112,8 @@ def rand_exec(rng, nops):
             for _ in range(rng.choice([0, 0, 0, 1, 1, 2])):
                 oc = rng.randint(1, nc)       # callbacks act on any client, also on one whose event is still queued
                 ops.append("oncb " + rng.choice(["write %d %d %s" % (oc, rng.randint(1, 6), rand_outcome(rng)), "suspend %d" % oc,
-                                                 "resume %d" % oc, "noread", "nop"]))
+                                                 "resume %d" % oc, "noread", "nop", "writeself %d %s" % (rng.randint(1, 6), rand_outcome(rng)),
+                                                 "suspendself", "resumeself"]))
             ops.append("run " + " ".join(steps))
         elif r < 0.63:
             ops.append("suspend %d" % c)
@@ -121,7 +150,7 @@ def run(ctx):
         ctx.notes["graph_edges_replayed"] = nedges
         check_executions(ctx, binary, execs, "graph")
     nexec, nops = (600, 40) if ctx.quick else (8000, 60)
-    execs = [rand_exec(ctx.rng, nops) for _ in range(nexec)]
+    execs = directed_execs() + [rand_exec(ctx.rng, nops) for _ in range(nexec)]
     check_executions(ctx, binary, execs, "random")
     return vlib.finish(ctx, "model_checking",
                        "every edge of the ClientWriteImpl state graph (all send outcome sequences x write sizes x suspend/resume x peer "
